@@ -813,6 +813,10 @@ class Engine(ExprMixin, CallMixin):
                 if lt is not None:
                     st.env[n] = fresh(lt, n)
                 continue
+            if isinstance(v, Alias) and self.cur is not None and v.root in self.cur.immutable and v.root not in st.rebound:
+                # still the caller's object under another name: keep the alias, so that a modification through it
+                # inside the loop is seen as a modification of the argument
+                continue
             if isinstance(v, Alias):
                 # the alias will be re-established by the body before use; forget it
                 lt = self.local_type(n, st)
